@@ -17,7 +17,8 @@ from __future__ import annotations
 import ast
 
 from engine.common import AnalysisError
-from engine.effects import write_sites, iter_functions, own_nodes
+from engine.effects import write_sites, iter_functions, own_nodes, \
+    self_attr_stores
 from engine.srcindex import need_function
 
 PARSE_PATH = [
@@ -74,7 +75,7 @@ def shared_class_mutables(mods):
             for b in bases(c)[:1]:
                 out |= init_stores(b, depth + 1)
             return out
-        out = set()
+        out = set(self_attr_stores(init))
         chained = False
         for n in ast.walk(init):
             if isinstance(n, ast.Attribute) and isinstance(
@@ -500,6 +501,7 @@ def rules(report, index):
             if f.name in seen:
                 continue
             seen.add(f.name)
+            init_stores.update(self_attr_stores(f))
             for n in ast.walk(f):
                 if isinstance(n, ast.Attribute) and isinstance(
                         n.ctx, ast.Store) and isinstance(
